@@ -59,6 +59,41 @@ DFormulaV(variant, ts, wrt, req) ==        \* req: the set of names the formula 
 DStructuredV(variant, parts, wrt, reqs) == \* reqs[k]: required names of part k
   [k \in DOMAIN parts |-> DFormulaV(variant, parts[k], IF variant = "consumed" /\ k > 1 THEN <<>> ELSE wrt, reqs[k])]
 
+(***************************************************************************)
+(* The ORDERING MODE of a formula (SimpleFormula(_ordering=...)): "degree" *)
+(* (default: stable sort by degree), "none" (as written) and "sort" (the   *)
+(* factors of every term sorted by expression, the terms by degree and     *)
+(* then by their sorted factor lists).  The mode decides the order of the  *)
+(* terms of the FORMULA; the derivative is the term-wise derivative IN     *)
+(* THAT ORDER, whatever the mode: term i of the derivative belongs to term *)
+(* i of the formula (a derivative holds repeated terms - several 0s - and  *)
+(* its degrees differ from the original's, so ordering it anew breaks the  *)
+(* correspondence).  Rank(_): the position of a factor expression in the   *)
+(* order of strings (TLC has no order on strings; the module that fixes    *)
+(* the alphabet supplies it).                                              *)
+(* Design error TLC must refute (OutputLaw fails under it):                *)
+(*   "reordered": the derivative is put in the order of the formula's mode *)
+(*               again (Reordered below).                                  *)
+(***************************************************************************)
+\* stable sort of a sequence by a strict weak order on its INDICES
+SortIdx(s, Less(_, _)) ==
+  LET n == Len(s)
+      pos == [i \in 1..n |-> 1 + Cardinality({j \in 1..n : Less(j, i) \/ (~Less(i, j) /\ j < i)})]
+  IN [p \in 1..n |-> s[CHOOSE i \in 1..n : pos[i] = p]]
+LexLess(a, b) == \E k \in 1..(Len(a) + 1) :
+                   /\ k <= Len(b) /\ \A j \in 1..(k - 1) : a[j] = b[j]
+                   /\ (k > Len(a) \/ a[k] < b[k])
+FactorSorted(Rank(_), t) == SortIdx(t, LAMBDA i, j : Rank(t[i].e) < Rank(t[j].e))
+Ordered(mode, Rank(_), ts) ==
+  CASE mode = "degree" -> SortByDegree(ts)
+    [] mode = "none"   -> ts
+    [] mode = "sort"   ->
+         LET fs == [i \in DOMAIN ts |-> FactorSorted(Rank, ts[i])]
+             deg == [i \in DOMAIN ts |-> Degree(fs[i])]
+             key == [i \in DOMAIN ts |-> [j \in DOMAIN fs[i] |-> Rank(fs[i][j].e)]]
+         IN SortIdx(fs, LAMBDA i, j : deg[i] < deg[j] \/ (deg[i] = deg[j] /\ LexLess(key[i], key[j])))
+Reordered(variant, mode, Rank(_), d) == IF variant = "reordered" THEN Ordered(mode, Rank, d) ELSE d
+
 (* what the property says about the OUTPUT D of differentiating the term list F with respect to wrt (<= 2 variables), in terms of  *)
 (* the output alone: same number of terms; term i is 0 as soon as some variable does not occur in F[i] (or is taken twice: after   *)
 (* the first step it no longer occurs); with respect to nothing it is F[i]; for one occurring variable it is the exact finite      *)
